@@ -7,9 +7,9 @@
 (* A group value is the record                                             *)
 (*   [exists |-> TRUE,                                                     *)
 (*    subs  : member id -> set of streams        (consumer.streams)        *)
-(*    heap  : stream -> set of member ids        (c.subscribers; a key can *)
-(*            stay with an empty set: entries are only deleted by          *)
-(*            StreamDeleted)                                               *)
+(*    heap  : stream -> set of member ids        (c.subscribers; a key     *)
+(*            exists iff the stream has a subscriber: dropped by           *)
+(*            StreamDeleted and when its last subscriber leaves)           *)
 (*    asg   : member id -> (stream -> sequence of partition ids)           *)
 (*            (consumer.assignments; a key exists iff >= 1 partition)      *)
 (*    cnt   : member id -> assignedCount  (ONE counter per consumer,       *)
@@ -93,16 +93,19 @@ GAddMember(g, c, streams, parts) ==
   LET g0 == [g EXCEPT !.subs = Put(@, c, streams), !.asg = Put(@, c, <<>>), !.cnt = Put(@, c, 0)]
   IN AddToStreams(g0, c, SortedStreams(streams), parts)
 
-(* RemoveMember / removeConsumer: leave each heap (sorted order); a stream is
-   rebalanced only if the leaving consumer held partitions of it *)
+(* RemoveMember / removeConsumer: leave each heap (sorted order); a heap that
+   lost its last subscriber is dropped (fix a339921: a group rebuilt by Restore
+   does not have it either); otherwise the stream is rebalanced only if the
+   leaving consumer held partitions of it *)
 
 RECURSIVE RemoveFromStreams(_, _, _, _)
 RemoveFromStreams(g, c, ss, parts) ==
   IF ss = <<>> THEN g
   ELSE LET s == Head(ss) IN
        IF s \notin DOMAIN g.heap THEN RemoveFromStreams(g, c, Tail(ss), parts)
-       ELSE LET g1 == [g EXCEPT !.heap[s] = @ \ {c}]
-                g2 == IF AsgLen(g, c, s) > 0 THEN Balance(g1, s, parts) ELSE g1
+       ELSE LET left == g.heap[s] \ {c}
+                g1 == IF left = {} THEN [g EXCEPT !.heap = Del(@, s)] ELSE [g EXCEPT !.heap[s] = left]
+                g2 == IF left # {} /\ AsgLen(g, c, s) > 0 THEN Balance(g1, s, parts) ELSE g1
             IN RemoveFromStreams(g2, c, Tail(ss), parts)
 
 GRemoveMember(g, c, parts) ==
@@ -110,7 +113,7 @@ GRemoveMember(g, c, parts) ==
   IN [g1 EXCEPT !.subs = Del(@, c), !.asg = Del(@, c), !.cnt = Del(@, c)]
 
 (* StreamDeleted(stream, epoch): refused when epoch < group epoch; a stream
-   nobody ever subscribed to changes nothing (not even the epoch); otherwise
+   nobody subscribes to changes nothing (not even the epoch); otherwise
    the subscribers forget the stream and every other stream they consume is
    rebalanced, in sorted order *)
 SDRefused(g, e) == e < g.epoch
